@@ -320,8 +320,9 @@ PROPS["C09"] = {
 }
 
 PROPS["C10"] = {
-    "lean": ["TinkVerif.Props.C10"],
-    "theorems": T("TinkVerif.Gen.Mldsa", "reduceOnce_spec add_spec sub_spec neg_spec mul_spec power2Round_spec power2Round_fips "
+    "lean": ["TinkVerif.Props.C10", "TinkVerif.Props.C10Hint"],
+    "theorems": T("TinkVerif.Gen.Mldsa", "useHint_makeHint useHint_makeHint_norm useHint_close useHint_zero decompose_recompose "
+                  "lowBits_small_highBits_stable power2Round_bound") + T("TinkVerif.Gen.Mldsa", "reduceOnce_spec add_spec sub_spec neg_spec mul_spec power2Round_spec power2Round_fips "
                   "divBy2Gamma2_88 divBy2Gamma2_32 decompose_spec88 decompose_spec32 decompose_fips88 decompose_fips32 highBits_eq "
                   "lowBits_eq useHint_spec88 useHint_spec32 makeHint_spec centeredAbs_spec centeredMax_spec zetas_spec consts_spec"),
     "harness": [{"name": "c10", "pre": True, "timeout": 3000}],
